@@ -311,18 +311,23 @@ Proof. intros h c chs j s. apply min_first_state; [apply reachable_qs|apply reac
 (* The same, read as the two rules a client relies on: no unfinished job queued on a requested channel has a
    strictly better (numerically smaller) priority than the delivered one, and among those of EQUAL priority none
    arrived earlier (smaller serial): priority first, FIFO within a priority. *)
+Lemma key_not_lt_prio_fifo : forall p x a b,
+  key_lt (p, x) (a, b) = false -> a <= p /\ (p = a -> b <= x).
+Proof.
+  intros p x a b M. unfold key_lt in M. cbn [fst snd] in M.
+  apply orb_false_iff in M. destruct M as [M1 M2].
+  apply N.ltb_ge in M1. split; [exact M1|].
+  intros E. subst p. rewrite N.eqb_refl in M2. cbn [andb] in M2. apply N.ltb_ge in M2. exact M2.
+Qed.
+
 Lemma min_first_prio_fifo : forall h c chs j,
   let s := run h init in
   In (ODeliver c chs j) (snd (step s (StartPull c chs))) ->
   forall k q p x, q_get (s_queues s) k = Some q -> (chs = [] \/ mem k chs = true) -> In (p, x) q ->
   is_done (s_jobs s) x = false -> j_prio j <= p /\ (p = j_prio j -> j_serial j <= x).
 Proof.
-  intros h c chs j s Hd k q p x Hq Hc Hin Hu.
-  pose proof (min_first h c chs j Hd k q p x Hq Hc Hin Hu) as M.
-  unfold key_lt in M. cbn [fst snd] in M.
-  apply orb_false_iff in M. destruct M as [M1 M2].
-  apply N.ltb_ge in M1. split; [exact M1|].
-  intros E. subst p. rewrite N.eqb_refl in M2. cbn [andb] in M2. apply N.ltb_ge in M2. exact M2.
+  intros h c chs j s Hd k q p x Hq Hc Hin Hu. apply key_not_lt_prio_fifo.
+  exact (min_first h c chs j Hd k q p x Hq Hc Hin Hu).
 Qed.
 
 (* ... and it blocks only when no unfinished job is queued on any requested channel *)
